@@ -23,3 +23,10 @@ package js_lexer
 //@ guarded surrogate-pair-only-beyond-bmp C01: func=(*Lexer).tryToDecodeEscapeSequences ; in=js_lexer ; site=convert 55296+* ; scenario=escape_uffff_roundtrip ; require-any=false:*c<=65535 || false:*c<65536 || true:*c>65535 || true:*c>=65536
 //@ guarded jsx-text-single-unit-only-for-bmp C01: func=decodeJSXEntities ; in=js_lexer ; site=convert phi:c ; scenario=escape_uffff_roundtrip ; require-any=true:*c<=65535 || true:*c<65536
 //@ guarded jsx-text-surrogate-pair-only-beyond-bmp C01: func=decodeJSXEntities ; in=js_lexer ; site=convert 55296+* ; scenario=escape_uffff_roundtrip ; require-any=false:*c<=65535 || false:*c<65536 || true:*c>65535 || true:*c>=65536
+
+// C01 ("a number literal denotes the same value"): the value of a binary / octal / hexadecimal literal is its
+// mathematical value rounded ONCE to the nearest double (ECMA-262 12.9.3 NumericValue + 6.1.6.1). Accumulating
+// `n*base + digit` in a float64 is exact only while the value stays below 2^53; beyond that every step rounds, and
+// round-half-even at an intermediate step loses digits that should have pushed the result up (0x1000000000000081).
+// So the per-digit accumulation must be able to hand over to the single-rounding conversion.
+//@ flow wide-integer-literals-are-rounded-once C01: func=(*Lexer).parseNumericLiteralOrDot ; in=js_lexer ; site=store Lexer.Number ; when=lexer.Number*phi:base+* ; scenario=hex_literal_rounded_per_digit ; reaches-call=parseLargeIntegerLiteral
